@@ -8,7 +8,7 @@
    the plan = the operation completed). *)
 From Coq Require Import NArith List Bool.
 From V Require Import Model.Crash Proofs.CrashProofsA Proofs.CrashProofsB Proofs.CrashProofsC Proofs.CrashProofsD Proofs.CrashProofsE
-  Proofs.CrashProofsF Proofs.CrashProofsG Model.CrashShared Proofs.CrashProofsS.
+  Proofs.CrashProofsF Proofs.CrashProofsG Model.CrashShared Proofs.CrashProofsS Proofs.CrashProofsT.
 Import ListNotations.
 Open Scope N_scope.
 
@@ -347,6 +347,54 @@ Theorem shared_no_partial_final : forall s o k a, J (sf s) -> fget (Final a) (sf
 Proof. intros s o k a H. destruct (shared_no_partial_l s o k H a) as [X _]. exact X. Qed.
 Print Assumptions shared_no_partial_final.
 
+(* 15. The shared model's invariants hold after EVERY fault-free history (`sgood`: pending deletions have records and belong
+       to registered datasets, located and pending exclude each other, located datasets have records; `sgood3`: the part
+       that also survives crashes, plus "no unowned records") ... *)
+Theorem shared_invariant_all_histories : forall h, sgood (sb (srun sinit h)) /\ sgood3 (sb (srun sinit h)).
+Proof. intros h. split; [apply sgood_all_histories_l | apply sgood3_all_histories_l]. Qed.
+Print Assumptions shared_invariant_all_histories.
+
+(* ... so the bystander theorem needs no premise about the state: after any history, at any crash point of any removal, a
+   located non-target dataset reads back exactly as before, whoever shares its artifact *)
+Theorem shared_bystander_intact_all_histories : forall h o d a k,
+  let s := srun sinit h in
+  s_is_removal o = true -> s_target o d = false -> mem d (s_loc (sb s)) = true -> art_of (sb s) d = Some a ->
+  let u := scrash s (splan s o) k in
+  sget u d = sget s d /\ fget (Final a) (sf u) = fget (Final a) (sf s) /\ mem d (s_loc (sb u)) = true.
+Proof.
+  intros h o d a k s R T L A u.
+  destruct (sgood_all_histories_l h) as (_ & _ & D & _). fold s in D.
+  destruct (shared_bystander_l s o d a k D R T L A) as (H1 & H2 & H3 & H4 & H5). fold u in H1, H2, H3, H4, H5.
+  split; [unfold sget; rewrite H3, A, H5; reflexivity|]. split; assumption.
+Qed.
+Print Assumptions shared_bystander_intact_all_histories.
+
+(* 16. `sgood3` survives EVERY crash of EVERY removal ... *)
+Theorem shared_crash_keeps_invariant : forall s o k, sgood3 (sb s) -> s_is_removal o = true -> sgood3 (sb (scrash s (splan s o) k)).
+Proof. exact sgood3_crash_removal_l. Qed.
+Print Assumptions shared_crash_keeps_invariant.
+
+(* ... and from the crash state u of ANY removal at ANY index (after any history), a purge / unstore of any refs l run to
+   completion -- in particular the re-run of the interrupted one -- leaves the trash table EMPTY, every registered target
+   and every deletion that was pending gone from the datastore (no location row, no record; no dataset row for a purge),
+   and deletes the artifact as soon as EVERY dataset that refers to it is among them -- the last ref takes the file. *)
+Theorem shared_rerun_completes : forall h o k l ord (purge : bool), s_is_removal o = true ->
+  let s := srun sinit h in
+  let u := scrash s (splan s o) k in
+  let u' := srun_op u (if purge then SPrune l ord else SUnstore l ord) in
+  sgood3 (sb u') /\ (forall d, mem d (s_trash (sb u')) = false)
+  /\ (forall d, (mem d l && mem d (s_ds (sb u))) || mem d (s_trash (sb u)) = true ->
+        mem d (s_loc (sb u')) = false /\ has_rec (sb u') d = false
+        /\ (purge = true -> mem d l = true -> mem d (s_ds (sb u')) = false)
+        /\ forall a, art_of (sb u) d = Some a ->
+             (forall d', In (d', a) (s_recs (sb u)) -> (mem d' l && mem d' (s_ds (sb u))) || mem d' (s_trash (sb u)) = true) ->
+             fget (Final a) (sf u') = None).
+Proof.
+  intros h o k l ord purge R s u u'.
+  apply (shared_removal_completes_l u l ord purge). apply sgood3_crash_removal_l; [apply sgood3_all_histories_l | exact R].
+Qed.
+Print Assumptions shared_rerun_completes.
+
 (* ---- non-vacuity: the hypotheses are met by reachable, non-trivial states ------------------------------------ *)
 Example ex_bystander :
   let s := run init [Put 0 1; Put 1 2; IngestMove 4] in
@@ -431,4 +479,16 @@ Example ex_shared_multi_ref_joint :
   sstore_ok (sb s) [2; 3] = true /\ length (splan s o) = 4%nat
   /\ sb (scrash s (splan s o) 3) = sb s /\ fget (Final 2) (sf (scrash s (splan s o) 3)) = Some (Complete 102)
   /\ sget (scrash s (splan s o) 4) 3 = GotValue 102.
+Proof. vm_compute. repeat split. Qed.
+
+(* a purge of both refs of a multi-ref artifact dies after the file was unlinked, before the rows were deleted (k = 2): the
+   re-run completes -- nothing pending, no record, no file; a purge of ONE ref keeps the file for the other *)
+Example ex_shared_rerun :
+  let s := srun sinit [SStore false 0 11 [0]; SStore false 2 102 [2; 3]] in
+  let u := scrash s (splan s (SPrune [3; 2] [])) 2 in
+  let u' := srun_op u (SPrune [3; 2] []) in
+  length (splan s (SPrune [3; 2] [])) = 4%nat
+  /\ mem 2 (s_trash (sb u)) = true /\ has_rec (sb u) 3 = true /\ fget (Final 2) (sf u) = None
+  /\ has_rec (sb u') 2 = false /\ has_rec (sb u') 3 = false /\ s_trash (sb u') = [] /\ sget u' 0 = GotValue 11
+  /\ sget (srun_op s (SPrune [2] [])) 3 = GotValue 102.
 Proof. vm_compute. repeat split. Qed.
